@@ -506,6 +506,23 @@ def b_reversed(I, a, k):
 def b_sorted(I, a, k):
     items = Mo.concrete_iter(I, a[0])
     key = k.get('key')
+    if items is not None and key is None and any(isinstance(x, SV) for x in items) and all(numkind(x) is not None for x in items) \
+            and not (set(k) - {'reverse'}) and not isinstance(k.get('reverse', False), SV) and len(items) <= 6:
+        # a few symbolic numbers: the ascending rearrangement, written as a compare-exchange network of min / max terms
+        # (model of the builtin: the sorted multiset; stability is invisible on numbers)
+        v = list(items)
+        n = len(v)
+        for rnd in range(n):
+            for i in range(rnd % 2, n - 1, 2):
+                c = I.truth_term(Mo.compare(I, ast.LtE(), v[i], v[i + 1]))
+                if isinstance(c, bool):
+                    lo, hi = (v[i], v[i + 1]) if c else (v[i + 1], v[i])
+                else:
+                    lo, hi = I.ite(c, v[i], v[i + 1]), I.ite(c, v[i + 1], v[i])
+                v[i], v[i + 1] = lo, hi
+        if k.get('reverse', False):
+            v.reverse()
+        return I.st.alloc('clist', v)
     if items is None or any(isinstance(x, SV) for x in items) or (set(k) - {'key', 'reverse'}) or isinstance(k.get('reverse', False), SV):
         raise Unsupported('sorted')
     if key is not None:
@@ -556,6 +573,29 @@ def np_round(I, a, k):
             raise Unsupported('numpy.round of a 2-d array')
         return I.st.alloc('clist', [round_half_even(I, y, d) for y in items], nd=True)
     return round_half_even(I, x, d)
+
+
+def op_itemgetter(I, a, k):
+    idx = list(a)
+
+    def get(I_, b, k_):
+        vals = [I_.getitem(b[0], i) for i in idx]
+        return vals[0] if len(vals) == 1 else tuple(vals)
+    return Builtin('operator.itemgetter(...)', get)
+
+
+def _accumulate(ismax):
+    def f(I, a, k):
+        items = Mo.concrete_iter(I, a[0])
+        if items is None or k or any(Mo.is_list(x) for x in items):
+            raise Unsupported('maximum/minimum.accumulate over a symbolic-length or 2-d sequence')
+        out, cur = [], None
+        for x in items:
+            cur = x if cur is None else b_max(I, [cur, x], {}, ismax)
+            out.append(cur)
+        r = I.st.alloc('clist', out, nd=True)
+        return _as_dtype(I, r, None)
+    return f
 
 
 def np_choose(I, a, k):
@@ -1144,6 +1184,10 @@ def lib_lookup(I, dotted):
         'numpy.clip': Builtin('numpy.clip', np_clip),
         'numpy.round': Builtin('numpy.round', np_round), 'numpy.around': Builtin('numpy.round', np_round),
         'numpy.choose': Builtin('numpy.choose', np_choose),
+        'numpy.maximum': ModRef('numpy.maximum'), 'numpy.minimum': ModRef('numpy.minimum'),
+        'numpy.maximum.accumulate': Builtin('numpy.maximum.accumulate', _accumulate(True)),
+        'numpy.minimum.accumulate': Builtin('numpy.minimum.accumulate', _accumulate(False)),
+        'operator.itemgetter': Builtin('operator.itemgetter', op_itemgetter),
         'numpy.equal': Builtin('numpy.equal', np_equal),
         'numpy.eye': Builtin('numpy.eye', np_eye),
         'numpy.argsort': Builtin('numpy.argsort', np_argsort),
